@@ -230,7 +230,13 @@ def make_spec(rng, noline, c99=False):
         patt = '"%s"' % w
         style = R.below(7)
         if R.chance(20):
-            patt = "(?x: \"%s\"\n     /* continued pattern */ )" % w if R.chance(50) else patt
+            form = R.below(3)
+            if form == 0:
+                patt = "(?x: \"%s\"\n     /* continued pattern */ )" % w
+            elif form == 1:
+                # a comment spanning several lines inside the pattern
+                patt = "(?x: \"%s\"  /* a comment\n   over %s\n   lines */\n )" % (
+                    w, R.choice(["several", "three", "[[ ]]"]))
         if "\n" in patt:
             first, rest = patt.split("\n", 1)
         if style == 0 and k < nrule - 1:
@@ -371,6 +377,10 @@ def worker(args):
         res["feats"][k] = res["feats"].get(k, 0) + n
     usestdout = (i % 5 == 4)
     args_ = ["-L"] if (noline and i % 2 == 0) else []
+    hdr = None
+    if i % 4 == 1 and not usestdout:
+        hdr = os.path.join(d, ["t.h", "m4_include.h"][i % 8 == 5])
+        args_ = args_ + ["--header-file=" + hdr]
     if usestdout:
         with open(out, "wb") as f:
             r = util.run([flex.bin] + args_ + ["-t", spec], cwd=d, env=flex.env(tmpdir=d), timeout=60, stdout=f)
@@ -387,6 +397,15 @@ def worker(args):
         res["problems"].append(("linedir", p, None))
     feat("linedirs_outfile", n_out)
     feat("linedirs_infile", n_in)
+    if hdr is not None:
+        if not os.path.exists(hdr):
+            res["problems"].append(("header", "flex exit 0 but the header %s was not written" % hdr, None))
+        else:
+            hp, h_out, h_in = check_linedirs(hdr, hdr, spec, noline)
+            for p_ in hp[:3]:
+                res["problems"].append(("linedir", "header: " + p_, None))
+            feat("header_linedirs_checked", h_out)
+            feat("headers_checked")
     if noline:
         feat("noline_specs")
     feat("backend:c99" if c99 else "backend:default")
@@ -466,6 +485,7 @@ def run(pid, tier):
     chk.require("linedirs_outfile", 20)
     chk.require("noline_specs", 2)
     chk.require("backend:c99", 5)
+    chk.require("headers_checked", 5)
     chk.require("comment_lines_between_rules", 10)
     chk.require("verbatim_blocks", 50)
     chk.require("verbatim_blocks_with_blank_runs", 5)
